@@ -89,6 +89,42 @@ def leaf_names(mod, keep=()):
     return [n for n in dir(mod) if (n.startswith("gamma_") or n.startswith("A_")) and callable(getattr(mod, n)) and n not in keep]
 
 
+REPLAY_MATCH = '''
+def replay():
+    """native: parts.match for every heavy quark, with the operator matrix element replaced by a recorder"""
+    from eko.runner import parts
+    from eko.io.items import Matching
+    from eko.quantities.heavy_quarks import QuarkMassScheme
+    seen = {}
+    class Fake:
+        def __init__(self, config, managers, nf, q2, is_backward, L, is_msbar):
+            seen.update(nf=nf, L=L); self.op_members, self.nf = {}, nf
+        def compute(self): pass
+    class Map:
+        def to_flavor_basis_tensor(self, qed): return (np.zeros((1, 1, 1, 1)), None)
+    class X: pass
+    saved = (parts.ome.OperatorMatrixElement, parts._matching_configs, parts._managers, parts.matching_condition.MatchingCondition.split_ad_to_evol_map)
+    parts.ome.OperatorMatrixElement, parts._matching_configs, parts._managers = Fake, (lambda e: {}), (lambda e: None)
+    parts.matching_condition.MatchingCondition.split_ad_to_evol_map = classmethod(lambda cls, *a, **k: Map())
+    out = []
+    try:
+        for ratios in ([1.5, 2.5, 3.5], [1.5, 2.5, float("inf")]):
+            for hq in (4, 5, 6):
+                if ratios[hq - 4] == float("inf"): continue
+                e = X(); e.theory_card = X(); e.theory_card.heavy = X(); e.theory_card.order = (2, 0)
+                e.theory_card.heavy.squared_ratios, e.theory_card.heavy.masses_scheme = ratios, QuarkMassScheme.POLE
+                try:
+                    parts.match(e, Matching(20.25, hq, False))
+                except Exception as ex:
+                    out.append(f"hq={hq}, ratios={ratios}: {type(ex).__name__}: {ex}"); continue
+                if seen["nf"] != hq - 1 or not np.isfinite(seen["L"]) or abs(seen["L"] - np.log(ratios[hq - 4])) > 1e-14:
+                    out.append(f"hq={hq}, ratios={ratios}: nf={seen['nf']}, L={seen['L']} instead of {np.log(ratios[hq - 4])}")
+    finally:
+        parts.ome.OperatorMatrixElement, parts._matching_configs, parts._managers, parts.matching_condition.MatchingCondition.split_ad_to_evol_map = saved
+    return bool(out), "; ".join(out[:3]) if out else "parts.match builds every matching with its own finite logarithm"
+'''
+
+
 def run(chk):
     import importlib
     from eko import scale_variations as sv
@@ -365,4 +401,77 @@ def run(chk):
     finally:
         for mod, nm, f in reversed(saved):
             setattr(mod, nm, f)
+
+    # ---- (e) the matching parts: every heavy quark of a path gets its matching, with finite inputs ---------------------------------------------------------
+    # parts.match builds the matching of heavy quark hq (4, 5, 6: every threshold a supported path can cross, upward and downward) with OperatorMatrixElement
+    # replaced by a recorder: no unrelated exception (an index into the three matching ratios, say), the operator is built for nf = hq - 1 flavours at the
+    # recipe's scale and direction, and the logarithm it receives is that of the ratio of THIS quark -- finite whenever this quark's ratio is, even if a heavier
+    # quark is switched off by an infinite ratio (a log(inf) would fill the matching with non-finite numbers at NLO and beyond).
+    from eko.runner import parts as _parts
+    from eko.io.items import Matching as _Matching
+    from eko.quantities.heavy_quarks import QuarkMassScheme as _QMS
+    fnm = "eko.runner.parts:match"
+    chk.under_contract(fnm)
+    rpm = script(REPLAY_MATCH, kind="matching_part_oracle")
+    seen_m = {}
+
+    class _FakeOME:
+        def __init__(self, config, managers, nf, q2, is_backward, L, is_msbar):
+            seen_m.update(config=config, managers=managers, nf=nf, q2=q2, is_backward=is_backward, L=L, is_msbar=is_msbar)
+            self.op_members, self.nf = {}, nf
+
+        def compute(self):
+            seen_m["computed"] = True
+
+    class _Map:
+        def to_flavor_basis_tensor(self, qed):
+            return (np.zeros((1, 1, 1, 1)), None)
+
+    class _X:
+        pass
+
+    saved_m = (_parts.ome.OperatorMatrixElement, _parts._matching_configs, _parts._managers, _parts.matching_condition.MatchingCondition.split_ad_to_evol_map)
+    _parts.ome.OperatorMatrixElement = _FakeOME
+    _parts._matching_configs = lambda e: {"cfg": 1}
+    _parts._managers = lambda e: "managers"
+    _parts.matching_condition.MatchingCondition.split_ad_to_evol_map = classmethod(lambda cls, *a, **k: _Map())
+    try:
+        for ratios, rlab in (([1.5, 2.5, 3.5], "finite"), ([1.5, 2.5, float("inf")], "top_switched_off"), ([1.5, float("inf"), float("inf")], "bottom_and_top_switched_off")):
+            for hq in (4, 5, 6):
+                if ratios[hq - 4] == float("inf"):
+                    continue            # a switched-off quark is never crossed
+                for inverse in (False, True):
+                    for scheme in (_QMS.POLE, _QMS.MSBAR):
+                        ek = _X()
+                        ek.theory_card = _X()
+                        ek.theory_card.heavy, ek.theory_card.order = _X(), (2, 0)
+                        ek.theory_card.heavy.squared_ratios, ek.theory_card.heavy.masses_scheme = list(ratios), scheme
+                        tagm = f"C04.matching_part[hq={hq},inverse={inverse},{scheme.value},ratios={rlab}]"
+                        seen_m.clear()
+                        try:
+                            _parts.match(ek, _Matching(20.25, hq, inverse))
+                        except T.Unsupported as e:
+                            if "non-finite float" in str(e):      # the infinite ratio of a switched-off quark reached the arithmetic of this matching: the very thing excluded
+                                chk.fail(tagm, f"a non-finite number enters the matching of heavy quark {hq}: {e}", fn=fnm, replay=rpm, goal="the matching receives the finite logarithm of this quark's ratio")
+                            else:
+                                chk.raised(tagm, e, fn=fnm, replay=rpm, goal="no unrelated exception")
+                            continue
+                        except Exception as e:  # noqa: BLE001
+                            chk.raised(tagm, e, fn=fnm, replay=rpm, goal="no unrelated exception")
+                            continue
+                        import math as _math
+
+                        def num(x):
+                            """numeric value of what the code handed over (a float natively, a term under the engine); nan if it has none"""
+                            try:
+                                return float(x) if isinstance(x, (int, float)) else float(complex(T.evalmp(T.lift(x), {}, 30)).real)
+                            except Exception:  # noqa: BLE001
+                                return float("nan")
+                        Lw, Lg = _math.log(ratios[hq - 4]), num(seen_m.get("L"))
+                        ok = bool(seen_m.get("computed")) and seen_m.get("nf") == hq - 1 and num(seen_m.get("q2")) == 20.25 and seen_m.get("is_backward") is inverse \
+                            and seen_m.get("is_msbar") is (scheme is _QMS.MSBAR) and _math.isfinite(Lg) and abs(Lg - Lw) <= 1e-12
+                        chk.ground(tagm, ok, fn=fnm, replay=rpm, detail=str({k: v for k, v in seen_m.items() if k in ("nf", "q2", "is_backward", "L", "is_msbar")}),
+                                   goal="the matching of heavy quark hq is built for nf = hq - 1 at the recipe's scale and direction with the FINITE logarithm of this quark's matching ratio")
+    finally:
+        _parts.ome.OperatorMatrixElement, _parts._matching_configs, _parts._managers, _parts.matching_condition.MatchingCondition.split_ad_to_evol_map = saved_m
     chk.extra["exhaustive"] = True
